@@ -181,6 +181,7 @@ package ro
 //@   ensures [panic-only-after-all-ran|C03] panics ==> called(loop.L0)
 
 //@ loop (*subscriptionImpl).Unsubscribe#0
+//@   noexit
 //@   invariant 0 <= it && it <= len(ranged)
 //@   invariant ranged == atlock(finalizers)
 //@   iteration emits call.execFinalizer(ranged[it])
